@@ -51,10 +51,15 @@ func (c *numChain) header(n uint64) *types.Header {
 		return h
 	}
 	br := c.branchOf(n)
-	h := &types.Header{Number: new(big.Int).SetUint64(n), ValRoot: common.Hash{byte((n+uint64(br))%3 + 1)}, CurrVersion: c.version}
+	ver := c.version
+	if (uint64(c.base[1])+n+uint64(br))%2 == 1 {
+		ver = altVersion // blocks alternate between two protocol versions with different committees
+	}
+	vp := params.Versions[ver]
+	h := &types.Header{Number: new(big.Int).SetUint64(n), ValRoot: common.Hash{byte((n+uint64(br))%3 + 1)}, CurrVersion: ver}
 	seed := crypto.Keccak256Hash(c.base, []byte{byte(br)}, new(big.Int).SetUint64(n+1).Bytes())
 	cons, _ := ucon.PrepareConsensusData(h, &ucon.BlockConsensusData{Round: new(big.Int).SetUint64(n), RoundIndex: 1, Seed: seed,
-		SortitionProof: []byte{}, Signature: []byte{}, ProposerThreshold: 26, ValidatorThreshold: 2000, CertValThreshold: 4000})
+		SortitionProof: []byte{}, Signature: []byte{}, ProposerThreshold: vp.ProposerThreshold, ValidatorThreshold: vp.ValidatorThreshold, CertValThreshold: vp.CertValThreshold})
 	h.Consensus = cons
 	c.hdrs[n] = h
 	return h
@@ -96,6 +101,8 @@ func (c *numChain) GetVldReader(root common.Hash) (state.ValidatorReader, error)
 
 type mgrWorld struct {
 	ch   *numChain
+	yp   *params.YouParams
+	ver  *ucon.VerifC04Server // the live verifier: a node at (round 1, index 1), never lenient for the positions asked
 	srv  *ucon.VerifC04Server
 	keys []*ecdsa.PrivateKey
 	who  int
@@ -110,16 +117,13 @@ func newMgrWorld(base []byte, keyBytes [][]byte, who int) (*mgrWorld, error) {
 		params.InitNetworkId(params.NetworkIdForTestCase)
 		paramsInit = true
 	}
-	var top params.YouVersion
-	for v := range params.Versions {
-		if v > top {
-			top = v
-		}
-	}
+	installAltVersion()
+	top := topVersion()
 	ypv := params.Versions[top]
 	ypc := ypv.DeepCopy()
 	yp := &ypc
-	yp.ProposerThreshold, yp.ValidatorThreshold = 26, 2000
+	// in force: committees that differ from those of BOTH versions the look-back headers carry (top: 26/2000/4000, alt: 20/1500/3000)
+	yp.ProposerThreshold, yp.ValidatorThreshold, yp.CertValThreshold = 26, 2000, 1000
 	yp.SeedLookBack, yp.StakeLookBack = 2, 3
 	w := &mgrWorld{who: who % len(keyBytes)}
 	ch := &numChain{base: base, version: top, hdrs: map[uint64]*types.Header{}}
@@ -147,7 +151,8 @@ func newMgrWorld(base []byte, keyBytes [][]byte, who int) (*mgrWorld, error) {
 		}
 		ch.readers[t] = vld
 	}
-	w.ch = ch
+	w.ch, w.yp = ch, yp
+	w.ver = ucon.NewVerifC04Server(ch, yp, big.NewInt(1), 1)
 	w.srv = ucon.NewVerifC04Server(ch, yp, big.NewInt(40), 1)
 	key := w.keys[w.who]
 	var err error
@@ -181,9 +186,36 @@ type fresh struct {
 	seed     common.Hash
 	value    common.Hash
 	j        uint32
-	thr      uint64
+	thr      uint64 // committee derived independently (expectedCommittee)
+	thrCode  uint64 // committee Server.getLookbackStakeInfo returns
+	infoOK   bool
+	proof    []byte
 	stake    *big.Int
 	total    *big.Int
+}
+
+// expectedCommittee: the committee of a credential kind, derived from the chain data and the parameters independently of
+// Server.getLookbackStakeInfo — proposer / vote: parameters in force; Certificate: the committee recorded for the protocol
+// version of the certificate look-back header (round - 2*ACoCHTFrequency, or genesis), which is also what header verification
+// reads (the CertValThreshold field of that header's consensus data).
+func (w *mgrWorld) expectedCommittee(k mkey) (thr uint64, kindName string, lbVersion params.YouVersion) {
+	switch {
+	case k.step == ucon.UConStepProposal:
+		return w.yp.ProposerThreshold, "propose", 0
+	case k.step == uint32(ucon.Certificate):
+		n := uint64(0)
+		if uint64(k.round) > 2*params.ACoCHTFrequency {
+			n = uint64(k.round) - 2*params.ACoCHTFrequency
+		}
+		hdr := w.ch.header(n)
+		cd, err := ucon.GetConsensusDataFromHeader(hdr)
+		if err != nil {
+			return 0, "certificate", hdr.CurrVersion
+		}
+		return cd.CertValThreshold, "certificate", hdr.CurrVersion
+	default:
+		return w.yp.ValidatorThreshold, "vote", 0
+	}
 }
 
 // freshFor computes, independently of the manager, the credential for exactly (round, index, step).
@@ -194,8 +226,9 @@ func (w *mgrWorld) freshFor(k mkey) fresh {
 	if isProp {
 		stakeLB = params.LookBackStake
 	}
-	stake, total, thr, kind, status, err := w.srv.StakeInfo(big.NewInt(k.round), w.addr, isProp, stakeLB)
-	f := fresh{thr: thr, stake: stake, total: total}
+	stake, total, thrCode, kind, status, err := w.srv.StakeInfo(big.NewInt(k.round), w.addr, isProp, stakeLB)
+	thr, _, _ := w.expectedCommittee(k)
+	f := fresh{thr: thr, thrCode: thrCode, infoOK: err == nil, stake: stake, total: total}
 	if err != nil || kind != params.KindChamber || (!isProp && status == params.ValidatorOffline) || total == nil || total.Sign() <= 0 {
 		return f
 	}
@@ -204,7 +237,7 @@ func (w *mgrWorld) freshFor(k mkey) fresh {
 		return f
 	}
 	f.eligible, f.seed = true, seed
-	f.value, _, f.j = ucon.VrfSortition(w.vsk, seed, k.index, k.step, thr, stake, total)
+	f.value, f.proof, f.j = ucon.VrfSortition(w.vsk, seed, k.index, k.step, thr, stake, total)
 	return f
 }
 
@@ -343,6 +376,52 @@ func (h *harness) mgrScript(base []byte, keyBytes [][]byte, who int, script stri
 			universe = append(universe, k)
 		}
 		fr := w.freshFor(k)
+		// the committee: Server.getLookbackStakeInfo vs the independent derivation vs the Lean model
+		if fr.infoOK {
+			thrE, kindName, lbv := w.expectedCommittee(k)
+			if fr.thrCode != thrE {
+				report("oracle", "oracle-committee-source", fmt.Sprintf("%s: getLookbackStakeInfo gives committee %d for a %s credential; the protocol committee (%s) is %d", op, fr.thrCode, kindName,
+					map[bool]string{true: fmt.Sprintf("CertValThreshold recorded for version %d of the certificate look-back header", lbv), false: "parameters in force"}[kindName == "certificate"], thrE))
+			}
+			if h.drv != nil {
+				lp, known := params.Versions[lbv]
+				kn := "0"
+				if known {
+					kn = "1"
+				}
+				m := h.ask(fmt.Sprintf("CM %s %d %d %d %s %d %d %d", kindName, w.yp.ProposerThreshold, w.yp.ValidatorThreshold, w.yp.CertValThreshold, kn, lp.ProposerThreshold, lp.ValidatorThreshold, lp.CertValThreshold))
+				if record {
+					h.res.TracesVsImpl++
+				}
+				if m != strconv.FormatUint(fr.thrCode, 10) {
+					report("correspondence", "corr-committee", fmt.Sprintf("%s: committee of a %s credential: go=%d lean=%s", op, kindName, fr.thrCode, m))
+				}
+			}
+			if record {
+				h.res.Dist("mgr-committee-" + kindName)
+			}
+		}
+		// the LIVE VERIFIER (a node that is not lenient for this position) accepts the credential issued for the protocol committee
+		if fr.eligible && f[0] != "G" {
+			var lerr error
+			func() {
+				defer func() {
+					if rec := recover(); rec != nil {
+						lerr = fmt.Errorf("panic: %v", rec)
+					}
+				}()
+				if f[0] == "P" {
+					lerr = w.ver.VerifyPriority(&w.keys[w.who].PublicKey, &ucon.ConsensusCommon{Round: big.NewInt(r), RoundIndex: k.index, Step: k.step,
+						Priority: ucon.VrfComputePriority(fr.value, fr.j), SortitionProof: fr.proof, SubUsers: fr.j})
+				} else {
+					lerr = w.ver.VerifySortition(&w.keys[w.who].PublicKey, &ucon.SortitionData{Round: big.NewInt(r), RoundIndex: k.index, Step: k.step, Proof: fr.proof, Votes: fr.j}, lbOf(k.step))
+				}
+			}()
+			wantOK := f[0] == "P" || fr.j > 0
+			if (lerr == nil) != wantOK {
+				report("oracle", "oracle-live-verifier", fmt.Sprintf("%s: the node-level verifier says %v for the credential issued for the protocol committee %d (%d seats): prover, verifier and header verification must agree on j", op, lerr, fr.thr, fr.j))
+			}
+		}
 		var ok bool
 		var v *ucon.StepView
 		store := "1"
